@@ -75,6 +75,9 @@ type obRecord struct {
 	Pos     string  `json:"at,omitempty"`
 }
 
+// reachability canaries of the current run (reported in the evidence)
+var canaries, canariesUndecided int
+
 func check(prop, tier string) int {
 	t0 := time.Now()
 	seed := 0
@@ -312,6 +315,7 @@ func check(prop, tier string) int {
 		}
 	}
 	var recs []obRecord
+	canaries, canariesUndecided = 0, 0
 	nObl, nDis := 0, 0
 	var solverTime float64
 	bySolver := map[string]int{}
@@ -324,8 +328,11 @@ func check(prop, tier string) int {
 		recs = append(recs, rec)
 		solverTime += r.Seconds
 		if o.MustFail {
+			canaries++
 			if r.Status == "unsat" {
 				violate(o.Name, "vacuity", "the point is unreachable under the contract's assumptions (everything after it is vacuously true)", false)
+			} else if r.Status != "sat" {
+				canariesUndecided++
 			}
 			continue
 		}
@@ -480,6 +487,9 @@ func writeEvidence(prop, tier string, seed int, wall float64, recs []obRecord, n
 		as = append(as, a)
 	}
 	sort.Strings(as)
+	if canariesUndecided > 0 {
+		as = append(as, fmt.Sprintf("reachability canaries (vacuity guard): %d of %d were decided reachable, none unreachable, %d undecided within their 2 s budget - for those, non-vacuity of the contract rests on the must-fail corpus (selftest/), which fails a named obligation of the same functions", canaries-canariesUndecided, canaries, canariesUndecided))
+	}
 	if spec != nil {
 		for _, n := range spec.NotProved {
 			as = append(as, "not machine-checked: "+n)
